@@ -103,17 +103,23 @@ var opNames = [nOps]string{"Valid", "SkipValue", "SkipValueFast", "ReadValue", "
 // doOp executes operation op on input d with goroutine-private state and returns a hash of
 // everything it returned.
 func doOp(st *gstate, op int, d []byte, salt uint64) uint64 {
+	// the buffer-taking functions are called with no buffer half of the time (seeded change
+	// C18-m1 hid shared state behind the nil-buffer path)
+	buf := &st.buf
+	if salt>>62&1 == 1 {
+		buf = nil
+	}
 	switch op {
 	case 0:
-		if rjson.Valid(d, &st.buf) {
+		if rjson.Valid(d, buf) {
 			return 1
 		}
 		return 2
 	case 1:
-		p, e := rjson.SkipValue(d, &st.buf)
+		p, e := rjson.SkipValue(d, buf)
 		return hashRes(p, e, 0)
 	case 2:
-		p, e := rjson.SkipValueFast(d, &st.buf)
+		p, e := rjson.SkipValueFast(d, buf)
 		return hashRes(p, e, 0)
 	case 3:
 		v, p, e := rjson.ReadValue(d)
@@ -208,7 +214,12 @@ func doOp(st *gstate, op int, d []byte, salt uint64) uint64 {
 		return hashRes(p, e, uint64(t))
 	case 24:
 		t, p, e := rjson.NextTokenType(d)
-		return hashRes(p, e, uint64(t))
+		// TokenType.String is part of the API too, also for values that name no token
+		// (seeded change C18-m2 memoised those names in a package-level table)
+		x := h.HashString(t.String())
+		x = mix(x, h.HashString(rjson.TokenType(salt%256).String()))
+		x = mix(x, h.HashString(rjson.TokenType(12+(salt>>8)%32).String()))
+		return hashRes(p, e, mix(uint64(t), x))
 	case 25, 26:
 		x := uint64(7)
 		i := 0
@@ -220,7 +231,13 @@ func doOp(st *gstate, op int, d []byte, salt uint64) uint64 {
 				return 0, nil
 			}
 			// exact skipping through the library itself, with the private buffer (re-entrant)
-			p, e := rjson.SkipValue(data, &st.buf)
+			var p int
+			var e error
+			if (salt>>61)&1 == 1 {
+				p, e = rjson.SkipValueFast(data, buf)
+			} else {
+				p, e = rjson.SkipValue(data, buf)
+			}
 			if e != nil {
 				return 0, nil
 			}
@@ -229,13 +246,13 @@ func doOp(st *gstate, op int, d []byte, salt uint64) uint64 {
 		var p int
 		var e error
 		if op == 25 {
-			p, e = rjson.HandleArrayValues(d, rjson.ArrayValueHandlerFunc(func(b []byte) (int, error) { return ans(nil, b) }), &st.buf)
+			p, e = rjson.HandleArrayValues(d, rjson.ArrayValueHandlerFunc(func(b []byte) (int, error) { return ans(nil, b) }), buf)
 		} else {
-			p, e = rjson.HandleObjectValues(d, rjson.ObjectValueHandlerFunc(func(k, b []byte) (int, error) { return ans(k, b) }), &st.buf)
+			p, e = rjson.HandleObjectValues(d, rjson.ObjectValueHandlerFunc(func(k, b []byte) (int, error) { return ans(k, b) }), buf)
 		}
 		return hashRes(p, e, x)
 	case 27:
-		cp := &composer{r: workload.NewRand(int64(salt), 1), readAll: salt&1 == 0, buf: &st.buf, used: map[string]int{}}
+		cp := &composer{r: workload.NewRand(int64(salt), 1), readAll: salt&1 == 0, buf: buf, used: map[string]int{}}
 		v, p, e := cp.value(d, 1, false)
 		if e != nil {
 			return hashRes(p, e, 0)
